@@ -341,3 +341,14 @@ pub fn arg_u64(name: &str) -> Option<u64> {
     let args: Vec<String> = std::env::args().collect();
     args.iter().position(|a| a == name).and_then(|i| args.get(i + 1)).and_then(|v| v.parse().ok())
 }
+
+/// record a failure under a SHARED key (a known finding): the first few concrete cases are kept as
+/// replays, the rest is only counted, so that they never crowd out other failures
+pub fn fail_shared(rep: &mut Report, key: &str, what: &str, input: serde_json::Value, detail: serde_json::Value) {
+    let n = rep.property_failures.iter().filter(|f| f["key"] == key).count();
+    if n < 2 {
+        rep.fail(key, what, input, detail);
+    } else {
+        rep.count(&format!("more-cases-of:{}", key));
+    }
+}
